@@ -106,6 +106,8 @@ Durations == {Dur("absent", FALSE, TRUE, 0), Dur("1ns", TRUE, TRUE, 1), Dur("999
 \* credential used to authenticate and how long ago it was authenticated (seconds)
 AuthShapes == {[cred |-> "cookie", age |-> 0], [cred |-> "cookie", age |-> 8 * 3600],
                [cred |-> "cookie", age |-> 16 * 3600 - 60], [cred |-> "basic", age |-> 0],
+               \* a session from a login that long ago whose second factor was completed just now: the session is as old as its login
+               [cred |-> "cookie_upgraded", age |-> 10 * 3600], [cred |-> "cookie_upgraded", age |-> 16 * 3600 - 120],
                [cred |-> "kmcert", age |-> 3600], [cred |-> "kmcert", age |-> Day - 1],
                [cred |-> "kmcert", age |-> Day + 60], [cred |-> "kmcert", age |-> 30 * Day],
                [cred |-> "ipcert", age |-> 0],
